@@ -751,15 +751,31 @@ def _run_after_interrupts(check, an: Analysis):
     _run_after_flatten(check, an)
 
 
+def _cause_list(an: Analysis) -> str:
+    """the attribute of InterruptQueue that holds the pending causes: the one list its
+    constructor makes"""
+    init = an.method(IQUEUE, '__init__')
+    found = [ast.unparse(t)[len('self.'):] for n in ast.walk(init.node)
+             if isinstance(n, (ast.Assign, ast.AnnAssign)) and isinstance(n.value, ast.List)
+             and not n.value.elts
+             for t in (n.targets if isinstance(n, ast.Assign) else [n.target])
+             if ast.unparse(t).startswith('self.')]
+    if len(found) != 1:
+        raise AnalysisError('InterruptQueue.__init__: the list of pending causes is not '
+                            'identifiable (%s)' % found)
+    return found[0]
+
+
 def _run_after_flatten(check, an: Analysis):
-    for fn, node, kind, detail in rules.attribute_method_calls(an, '_causes', IQUEUE):
+    causes = _cause_list(an)
+    for fn, node, kind, detail in rules.attribute_method_calls(an, causes, IQUEUE):
         if kind == 'call':
             if detail == 'pop':
                 ok = len(node.args) == 1 and isinstance(node.args[0], ast.Constant) \
                     and node.args[0].value == 0
             else:
                 ok = detail == 'append'
-            check.instance('P', 'InterruptQueue:_causes.%s' % detail, ok,
+            check.instance('P', 'InterruptQueue:causes.%s' % detail, ok,
                            '%s:%d' % (fn.module.relpath, node.lineno),
                            'interrupt causes are delivered in call order')
     iq_value = an.callee(IQUEUE, 'value')
@@ -781,7 +797,7 @@ def _run_after_flatten(check, an: Analysis):
             n += 1
             value = rules.value_text(path, len(path.events), path.outcome[1]) \
                 if path.outcome[1] is not None else 'None'
-            ok &= value == 'self._causes.pop(0)'
+            ok &= value == 'self.%s.pop(0)' % causes
     check.instance('P', 'InterruptQueue.pop:returns-the-cause', ok and n > 0,
                    where_fn(iq_pop.fn), 'pop() returns the cause it took from the front of '
                    'the queue (%d return paths)' % n)
@@ -795,7 +811,7 @@ def _run_after_flatten(check, an: Analysis):
         queued = [rules.value_text(path, i, e.node.args[0]) for i, e in enumerate(path.events)
                   if e.kind == 'call' and isinstance(e.node, ast.Call) and isinstance(
                       e.node.func, ast.Attribute) and e.node.func.attr == 'append'
-                  and rules.receiver_at(path, e) == 'self._causes' and e.node.args]
+                  and rules.receiver_at(path, e) == 'self.%s' % causes and e.node.args]
         ok &= queued == [cause_param]
     check.instance('P', 'InterruptQueue.push:queues-the-cause', ok and n > 0,
                    where_fn(push_fn), 'every push() queues exactly the cause it was given '
